@@ -5,6 +5,7 @@ CONSTANTS
   ExtraM = {}
   ExtraP = {}
   CmdP = {}
+  DescCmds = {"cmd", "stop", "_stop"}
   Wires = {"w1", "wbad"}
   ValidW = {"w1"}
   ENames = {"HardwareError", "Bogus"}
